@@ -189,8 +189,10 @@ class DagFunc:
         self.arith = []  # (guard, Node) of every arithmetic / cast node, for premise generation
 
 
-def build(func, mod=None):
-    """IR function -> DagFunc.  Raises AnalysisBroken for anything outside the accepted fragment."""
+def build(func, mod=None, lenient=False):
+    """IR function -> DagFunc.  Raises AnalysisBroken for anything outside the accepted fragment.
+    lenient=True: instructions outside the fragment become opaque nodes; only the list of calls
+    (`effects`) may then be used, never values."""
     d = DagFunc(func)
     for i, (ty, name, attrs) in enumerate(func.params):
         if name is None or ty not in INT_BITS and ty not in ("float", "double", "x86_fp80"):
@@ -244,6 +246,8 @@ def build(func, mod=None):
             raise AnalysisBroken("%s: non-scalar operand %r" % (func.name, o))
         if o.kind == "v":
             if o.v not in d.env:
+                if lenient:
+                    return Node("opaque", o.ty, (), "%" + o.v)
                 raise AnalysisBroken("%s: use of unknown value %%%s" % (func.name, o.v))
             return d.env[o.v]
         if o.kind == "c":
@@ -385,6 +389,11 @@ def build(func, mod=None):
                 pass
             elif op == "load" and ins.res is not None and not _is_used(func, ins.res):
                 continue  # dead load (e.g. the padding byte of an empty constexpr object)
+            elif lenient and op in ("store", "load", "getelementptr", "freeze", "extractvalue", "insertvalue", "unsupported"):
+                if ins.res is not None:
+                    d.env[ins.res] = Node("opaque", "ptr", (), ins.raw[:120])
+            elif op == "unsupported":
+                raise AnalysisBroken("%s: %s" % (func.name, ins.args[0]))
             elif op in ("store", "load", "getelementptr", "switch", "freeze", "extractvalue", "insertvalue"):
                 raise AnalysisBroken("%s: memory / aggregate instruction outside the accepted fragment: %s"
                                      % (func.name, ins.raw))
